@@ -17,6 +17,9 @@ func coreC02(tier string) []RunSpec {
 			out = append(out, RunSpec{Profile: "core:" + kind, Params: map[string]int{"force": mwKind(kind), "fee": fi}})
 		}
 	}
+	for k := 0; k < 64; k++ {
+		out = append(out, RunSpec{Profile: "core:melts-share-one-quote", Params: map[string]int{"force": mwKind("race"), "rshared": 1, "fee": k % 2, "mix": 0, "k": k}})
+	}
 	for k := 0; k < 3; k++ {
 		out = append(out, RunSpec{Profile: "core:forged-invoice-same-hash", Params: map[string]int{"force": mwKind("adversarial"), "advmode": 9, "fee": 0, "k": k}})
 	}
@@ -63,6 +66,7 @@ func runC02(rc *RunCtx) {
 	})
 	forced, isForced := rc.Spec.Params["force"]
 	m.forceAdvMode = rc.P("advmode", 0)
+	m.forceRaceShared = rc.P("rshared", 0) == 1
 	m.forceMeltSat = uint64(rc.P("meltsat", 0))
 	if m.forceMeltSat > 0 {
 		rc.Quietly(func() { m.User.Fund("A", 1024) })
